@@ -1,10 +1,13 @@
 ----------------------------- MODULE MCProject -----------------------------
 EXTENDS Project
-CONSTANTS MaxDims, Lens, OneAxisMax, LargeN
+CONSTANTS MaxDims, Lens, OneAxisMax, LargeN, BandN
 MCFromSet == AllShapes(MaxDims, Lens) \cup {<<n>> : n \in 2..OneAxisMax}
 Min(a, b) == IF a < b THEN a ELSE b
 MCLargeSet ==
     \* (m = n - 100: the denominator C(n, m) is finite while numerator factors are not, or are exactly zero)
     UNION {{<<n, m, k>> : m \in {1, 2, n \div 2, n - 1, n} \cup (IF n > 1000 THEN {n - 100} ELSE {}),
                           k \in {0, 1, 2, n \div 3, n \div 2, n - 1, n}} : n \in LargeN}
+    \* the band around the end of the factorial table (170! is the largest finite one): EVERY source class, so every factorial
+    \* argument on either side of the table's end occurs as k, n - k, k - j and n - k - (m - j)
+    \cup UNION {{<<n, m, k>> : m \in {10, n \div 2}, k \in 0..n} : n \in BandN}
 =============================================================================
